@@ -262,3 +262,32 @@ Proof. vm_compute. reflexivity. Qed.
 Example bulk_example :
   bulk_meta 3 [Ok 4; Ok (-1); Exc 9; Exc 8] [3; 1; 0; 2] 2 = ([], Some 9%Z).
 Proof. vm_compute. reflexivity. Qed.
+
+(* ---- forced shutdown drain *)
+Definition dmeasure (q : nat) (pc : bool) : nat := if pc then Nat.max (2 * q) 2 else 2 * q + 1.
+
+Lemma drain_terminates_measure (q : nat) (pc : bool) (sched : list dstep) :
+  dmeasure q pc <= count_consumer sched -> drain_run false q pc sched = DDone.
+Proof.
+  revert q pc. induction sched as [|s r IH]; intros q pc H.
+  - unfold dmeasure in H. destruct pc; cbn [count_consumer] in H; lia.
+  - destruct s.
+    + cbn [drain_run count_consumer] in *. apply IH.
+      unfold dmeasure in *. destruct q as [|q']; cbn [Nat.pred]; destruct pc; lia.
+    + unfold dmeasure in H. destruct pc; destruct q as [|q']; cbn [drain_run count_consumer] in *;
+        try reflexivity; apply IH; unfold dmeasure; lia.
+Qed.
+
+Lemma drain_terminates_gen (q : nat) (pc : bool) (sched : list dstep) :
+  2 * q + (if pc then 2 else 1) <= count_consumer sched -> drain_run false q pc sched = DDone.
+Proof.
+  intros H. apply drain_terminates_measure. unfold dmeasure. destruct pc; lia.
+Qed.
+
+Lemma drain_blocking_stuck :
+  drain_run true 1 false [DConsumer; DWorkerTake; DConsumer] = DStuck.
+Proof. reflexivity. Qed.
+
+Example drain_example :
+  drain_run false 2 false [DConsumer; DWorkerTake; DConsumer; DWorkerTake; DConsumer; DConsumer; DConsumer] = DDone.
+Proof. reflexivity. Qed.
